@@ -103,13 +103,137 @@ class Pieces:
         self.zd = zd
 
 
+# ---------------------------------------------------------------------------------------------
+# premise: the token readers the parser builds its values from hand out stream tokens only
+# ---------------------------------------------------------------------------------------------
+
+TWIN = False
+R_KINDS = ["NEWLINE", "WHITESPACE", "COMMENT_SINGLELINE", "COMMENT_MULTILINE", "NAME", ";"]
+R_MAX = 5
+READERS = ["token_eof_ok", "token_newline_eof_ok", "token", "token_if", "token_if_not", "token_if_val", "token_if_in_set", "token_peek_if"]
+
+
+def readers_judge(kinds, m):
+    """the real TokenStream reader `READERS[m]` over a stub PLY lexer handing out `kinds`: the tokens obtained by calling it until the
+    stream is dry are the raw tokens minus the discardable ones (a NEWLINE only survives token_newline_eof_ok), in order"""
+    from collections import deque
+    from cxxheaderparser.lexer import LexerTokenStream
+    from .c08 import StubPly, StubTok
+
+    vals = {"NEWLINE": "\n", "WHITESPACE": " ", "COMMENT_SINGLELINE": "// c\n", "COMMENT_MULTILINE": "/* c */", "NAME": "x", ";": ";"}
+    ls = LexerTokenStream.__new__(LexerTokenStream)
+    ls._lex = StubPly([StubTok(k, vals[k], j + 1) for j, k in enumerate(kinds)])
+    ls.tokbuf = deque()
+    name = READERS[m]
+    keep = [k for k in kinds if k in ("NAME", ";") or (k == "NEWLINE" and name == "token_newline_eof_ok")]
+    got = []
+    for _ in range(2 * len(kinds) + 2):
+        if name == "token":
+            try:
+                t = ls.token()
+            except EOFError:
+                break
+        elif name in ("token_eof_ok", "token_newline_eof_ok"):
+            t = getattr(ls, name)()
+            if t is None:
+                break
+        else:
+            if name == "token_if":
+                t = ls.token_if("NAME")
+            elif name == "token_if_not":
+                t = ls.token_if_not("NAME")
+            elif name == "token_if_val":
+                t = ls.token_if_val("x")
+            elif name == "token_if_in_set":
+                t = ls.token_if_in_set({"NAME"})
+            else:
+                if ls.token_peek_if(";") not in (True, False):
+                    return "token_peek_if did not return a bool"
+                t = None
+            if t is None:  # declined (or peeked): the token must still be there for the plain reader
+                t = ls.token_eof_ok()
+                if t is None:
+                    break
+        got.append(t.type)
+    if got != keep:
+        return f"{name} over {kinds}: handed out {got}, the stream tokens are {keep}"
+    return None
+
+
+def h_readers(c0: int, c1: int, c2: int, c3: int, c4: int, c5: int, c6: int) -> bool:
+    """
+    post: _
+    """
+    from crosshair.tracers import NoTracing
+    from ..chrun import Chooser
+
+    with NoTracing():
+        ch = Chooser([c0, c1, c2, c3, c4, c5, c6])
+        m = ch.pick(len(READERS))
+        kinds = []
+        while len(kinds) < R_MAX:
+            k = ch.pick(len(R_KINDS) + 1)
+            if k == len(R_KINDS):
+                break
+            kinds.append(R_KINDS[k])
+        if TWIN:
+            return False
+        return readers_judge(kinds, m) is None
+
+
+def readers_replay(vals):
+    from ..chrun import Chooser
+
+    ch = Chooser(list(vals), prefix=())
+    m = ch.pick(len(READERS))
+    kinds = []
+    while len(kinds) < R_MAX:
+        k = ch.pick(len(R_KINDS) + 1)
+        if k == len(R_KINDS):
+            break
+        kinds.append(R_KINDS[k])
+    return kinds, READERS[m], readers_judge(kinds, m)
+
+
+def check_readers(ck, tier):
+    from .. import chrun
+
+    rmax = 4 if tier == "quick" else 6
+    pool = chrun.make_pool()
+    try:
+        tw = chrun.run(__name__, "h_readers", [(0,)], timeout=60, globs=dict(TWIN=True, R_MAX=rmax), pool=pool)
+        chrun.record(ck, tw, "token readers reachability twin", expect="refuted")
+        shards = [(a, b) for a in range(len(READERS)) for b in range(len(R_KINDS) + 1)]
+        r = chrun.run(__name__, "h_readers", shards, timeout=150 if tier == "quick" else 900, globs=dict(TWIN=False, R_MAX=rmax), pool=pool)
+        chrun.record(ck, r, "premise: every TokenStream reader hands out stream tokens only (no white space, comment; newline only where asked for), all raw token sequences",
+                     bound=f"<= {rmax} raw tokens over {len(R_KINDS)} kinds, {len(READERS)} readers")
+    finally:
+        pool.shutdown()
+    globals()["R_MAX"] = rmax
+    seen = set()
+    for shard, args, kw, msg in r.counterexamples:
+        vals = list(shard) + list(args)
+        kinds, name, bad = readers_replay(vals)
+        ck.traces += 1
+        if bad is None:
+            raise HarnessError(f"token-reader counterexample did not reproduce: {msg}")
+        if name in seen:
+            continue
+        seen.add(name)
+        body = ("from vf.props import c16\n" f"c16.R_MAX = {rmax}\nkinds, name, bad = c16.readers_replay({vals!r})\nprint(kinds, name); print(bad)\nsys.exit(1 if bad else 0)\n")
+        ck.violation(bad, ck.write_replay(body), key=dict(kind="reader", reader=name))
+
+
 def run(tier):
     ck = Check("C16", tier)
     from cxxheaderparser import tokfmt as tf
     from cxxheaderparser.lexer import PlyLexer, LexerTokenStream
 
     model = rx.LexModel()
-    ck.encode(tf.tokfmt, PlyLexer, LexerTokenStream._fill_tokbuf)
+    from cxxheaderparser.lexer import TokenStream
+
+    ck.encode(tf.tokfmt, PlyLexer, LexerTokenStream._fill_tokbuf, TokenStream.token, TokenStream.token_eof_ok, TokenStream.token_newline_eof_ok, TokenStream.token_if,
+              TokenStream.token_if_not, TokenStream.token_if_val, TokenStream.token_if_in_set, TokenStream.token_peek_if)
     nmax = 4 if tier == "quick" else 6
     ck.bounds = dict(plan=("2 tokens <= %d code points; 3 tokens <= %d" % (nmax, 3 if tier == "quick" else 5)) + ("; 4 tokens <= 4; 5 tokens <= 5" if tier == "thorough" else ""))
     ck.assume("code points range over 0..0x10FFFF",
@@ -118,6 +242,7 @@ def run(tier):
               "the space decision is read off the real tokfmt by calling it on every ordered pair of class representatives")
     ck.out_of_scope(f"fusions that need token texts longer than {nmax} code points in total", "sequences whose mis-lexing needs four or more tokens")
 
+    check_readers(ck, tier)
     t = time.time()
     npairs, nstr, npieces = rx.validate_translator(model, tier, ck.seed)
     ck.traces += npairs
